@@ -53,6 +53,9 @@ func main() {
 			panic(err)
 		}
 		wr.Flush()
+		if ea, _ := out["exit_after"].(bool); ea {
+			os.Exit(3)
+		}
 		if st, _ := out["st"].(string); st == "timeout" {
 			// the abandoned goroutine keeps burning a core: leave, the driver restarts us
 			os.Exit(3)
